@@ -12,7 +12,10 @@ import (
 )
 
 func init() {
-	Register(&Scenario{Prop: "C06", Name: "crash-upload", Strict: true, Quick: 10, Thorough: 10, Run: runC06Upload})
+	Register(&Scenario{Prop: "C06", Name: "crash-upload", Strict: true, Quick: 10, Thorough: 10, Run: func(rc *RunCtx) *simkit.Violation { return runC06Upload(rc, false) }})
+	// the interruption is a store error (before the write lands, or after it landed) instead of the death of the
+	// process: the operation goes on and reports whatever it reports; a bundle may only be visible if it is complete
+	Register(&Scenario{Prop: "C06", Name: "store-error-upload", Strict: true, Quick: 5, Thorough: 6, Run: func(rc *RunCtx) *simkit.Violation { return runC06Upload(rc, true) }})
 	Register(&Scenario{Prop: "C06", Name: "crash-label", Strict: true, Quick: 2, Thorough: 2, Run: runC06Label})
 	Register(&Scenario{Prop: "C06", Name: "crash-upload-enumerated", Strict: true, Quick: 1, Thorough: 3, Run: runC06Enum})
 }
@@ -77,7 +80,7 @@ func drawHistory(prop string, d *DM, t *simkit.Tape, cl *simkit.Client, repo str
 	return r, nil
 }
 
-func runC06Upload(rc *RunCtx) *simkit.Violation {
+func runC06Upload(rc *RunCtx, storeError bool) *simkit.Violation {
 	const prop = "C06"
 	w := rc.W
 	t := w.W
@@ -99,6 +102,12 @@ func runC06Upload(rc *RunCtx) *simkit.Violation {
 	kind := simkit.FCrashB
 	if t.Bool(1, 2) {
 		kind = simkit.FCrashA
+	}
+	if storeError {
+		kind = simkit.FErr
+		if t.Bool(1, 2) {
+			kind = simkit.FAckLost
+		}
 	}
 	victim := w.Client("victim")
 	src := memDisk()
@@ -149,6 +158,20 @@ func runC06Upload(rc *RunCtx) *simkit.Violation {
 		if cp >= bound-2 {
 			w.Probe("crash-near-commit")
 		}
+	} else if storeError && victim.Writes > cp {
+		// the chosen write failed (or landed and reported a failure) and the upload went on
+		w.Probe("nontrivial")
+		w.Probe("store-error-fired")
+		if pv := taskProblem(prop, vt, "upload"); pv != nil {
+			return pv
+		}
+		if vt.Err == nil {
+			// it reports success: its bundle is committed and must be complete
+			w.Probe("upload-succeeded-despite-store-error")
+			r.Bundles = append(r.Bundles, &mBundle{ID: vb.BundleID, Tree: tree, Leaf: leaf})
+		} else if vb.BundleID != "" {
+			extra[vb.BundleID] = &mBundle{ID: vb.BundleID, Tree: tree, Leaf: leaf}
+		}
 	} else {
 		// crash point beyond the last write: the upload completed
 		if pv := taskProblem(prop, vt, "upload"); pv != nil {
@@ -163,10 +186,10 @@ func runC06Upload(rc *RunCtx) *simkit.Violation {
 	if v := observe(prop, d, obs, r, extra, t, true); v != nil {
 		return v
 	}
-	if !victim.Dead {
+	if !victim.Dead && len(extra) == 0 {
 		return nil
 	}
-	// if the crashed upload is visible it counts as committed from now on
+	// if the interrupted upload is visible it counts as committed from now on
 	if vb.BundleID != "" && d.Meta.Peek(model.GetArchivePathToBundle("r1", vb.BundleID)) != nil {
 		r.Bundles = append(r.Bundles, extra[vb.BundleID])
 	}
@@ -272,12 +295,13 @@ func runC06Enum(rc *RunCtx) *simkit.Violation {
 		return v
 	}
 	n := calc.Writes
-	w.Note("enumerating %d crash points x {before, after} of an upload of %d files (leaf %d)", n, len(shape), leaf)
+	w.Note("enumerating %d interruption points x {crash before, crash after, error before, error after landing} of an upload of %d files (leaf %d)", n, len(shape), leaf)
 	w.ProbeN("crash-points-enumerated", 2*n)
+	w.ProbeN("store-error-points-enumerated", 2*n)
 	w.Probe("nontrivial")
 	for cp := 0; cp < n; cp++ {
-		for _, kind := range []simkit.Kind{simkit.FCrashB, simkit.FCrashA} {
-			name := fmt.Sprintf("e%d%c", cp, "BA"[kind-simkit.FCrashB])
+		for ki, kind := range []simkit.Kind{simkit.FCrashB, simkit.FCrashA, simkit.FErr, simkit.FAckLost} {
+			name := fmt.Sprintf("e%d%c", cp, "baxy"[ki])
 			r := &mRepo{Name: name, Labels: map[string]string{}}
 			if v := createRepo(prop, d, setup, name); v != nil {
 				return v
@@ -294,7 +318,7 @@ func runC06Enum(rc *RunCtx) *simkit.Violation {
 			_ = writeTree(src, tree)
 			vb, vfn := d.upload(victim, d.Stores(victim), name, src, uploadOpts{leaf: leaf, concUp: 2, message: "target"})
 			w.Faults = &simkit.FaultCfg{Plan: []*simkit.Planned{{Client: victim.Name, Nth: cp, Kind: kind}}}
-			w.Go(victim, "upload-target", vfn)
+			evt := w.Go(victim, "upload-target", vfn)
 			if v := w.Run(); v != nil {
 				if v.Property == "" {
 					v.Property = prop
@@ -303,7 +327,17 @@ func runC06Enum(rc *RunCtx) *simkit.Violation {
 			}
 			w.Faults = nil
 			extra := map[string]*mBundle{}
-			if !victim.Dead {
+			if !victim.Dead && (kind == simkit.FErr || kind == simkit.FAckLost) && victim.Writes > cp {
+				// the store error fired and the upload went on: a reported success is a committed bundle
+				if pv := taskProblem(prop, evt, "upload"); pv != nil {
+					return pv
+				}
+				if evt.Err == nil {
+					r.Bundles = append(r.Bundles, &mBundle{ID: vb.BundleID, Tree: tree, Leaf: leaf})
+				} else if vb.BundleID != "" {
+					extra[vb.BundleID] = &mBundle{ID: vb.BundleID, Tree: tree, Leaf: leaf}
+				}
+			} else if !victim.Dead {
 				// fewer writes than the calibration run under this schedule (dedup inside the upload): completed
 				r.Bundles = append(r.Bundles, &mBundle{ID: vb.BundleID, Tree: tree, Leaf: leaf})
 				w.Probe("crash-point-beyond-last-write")
@@ -311,7 +345,7 @@ func runC06Enum(rc *RunCtx) *simkit.Violation {
 				extra[vb.BundleID] = &mBundle{ID: vb.BundleID, Tree: tree, Leaf: leaf}
 			}
 			if v := observe(prop, d, w.Client("obs-"+name), r, extra, t, true); v != nil {
-				v.Message = fmt.Sprintf("[crash %s write %d/%d] %s", kind, cp, n, v.Message)
+				v.Message = fmt.Sprintf("[%s at write %d/%d] %s", kind, cp, n, v.Message)
 				return v
 			}
 		}
@@ -320,12 +354,13 @@ func runC06Enum(rc *RunCtx) *simkit.Violation {
 }
 
 func init() {
-	Register(&Scenario{Prop: "C06", Name: "crash-diamond-commit", Strict: true, Quick: 3, Thorough: 4, Run: runC06Commit})
+	Register(&Scenario{Prop: "C06", Name: "crash-diamond-commit", Strict: true, Quick: 3, Thorough: 4, Run: func(rc *RunCtx) *simkit.Violation { return runC06Commit(rc, false) }})
+	Register(&Scenario{Prop: "C06", Name: "store-error-diamond-commit", Strict: true, Quick: 2, Thorough: 3, Run: func(rc *RunCtx) *simkit.Violation { return runC06Commit(rc, true) }})
 }
 
 // runC06Commit: a diamond commit is killed at a chosen store write; the bundle it was producing is visible
 // only if its descriptor landed, and then it is complete.
-func runC06Commit(rc *RunCtx) *simkit.Violation {
+func runC06Commit(rc *RunCtx, storeError bool) *simkit.Violation {
 	const prop = "C06"
 	w := rc.W
 	t := w.W
@@ -363,8 +398,11 @@ func runC06Commit(rc *RunCtx) *simkit.Violation {
 	var dia *core.Diamond
 	cp := t.Range(0, 3)
 	kind := simkit.Kind(int(simkit.FCrashB) + t.Choose(2))
+	if storeError {
+		kind = simkit.Kind(int(simkit.FErr) + t.Choose(2))
+	}
 	w.Faults = &simkit.FaultCfg{Plan: []*simkit.Planned{{Client: "victim", Nth: cp, Kind: kind}}}
-	w.Note("history %d bundles; diamond with %d splits; commit crashes %s its write #%d", len(r.Bundles), ns, kind, cp)
+	w.Note("history %d bundles; diamond with %d splits; commit meets %s at its write #%d", len(r.Bundles), ns, kind, cp)
 	vt := w.Go(victim, "commit", commitFn(d.Stores(victim), "r1", did, model.IgnoreConflicts, 0, &dia))
 	if v := w.Run(); v != nil {
 		v.Property = prop
@@ -377,7 +415,20 @@ func runC06Commit(rc *RunCtx) *simkit.Violation {
 		extra[dia.BundleID] = &mBundle{ID: dia.BundleID, Tree: merged, Leaf: 2 << 20}
 		landed = d.Meta.Peek(model.GetArchivePathToBundle("r1", dia.BundleID)) != nil
 	}
-	if !victim.Dead {
+	errored := storeError && !victim.Dead && victim.Writes > cp
+	if errored {
+		w.Probe("nontrivial")
+		w.Probe("store-error-fired")
+		if pv := taskProblem(prop, vt, "commit"); pv != nil {
+			return pv
+		}
+		if vt.Err == nil {
+			w.Probe("commit-succeeded-despite-store-error")
+			r.Bundles = append(r.Bundles, extra[dia.BundleID])
+			extra = nil
+			errored = false
+		}
+	} else if !victim.Dead {
 		if vt.Err != nil {
 			return Viol(prop, "commit-failed", "Commit", did, "fault-free commit failed: %v", vt.Err)
 		}
@@ -390,7 +441,7 @@ func runC06Commit(rc *RunCtx) *simkit.Violation {
 	if v := observe(prop, d, w.Client("observer"), r, extra, t, true); v != nil {
 		return v
 	}
-	if !victim.Dead || landed {
+	if !(victim.Dead || errored) || landed {
 		return nil // retrying a commit whose bundle descriptor landed is the recorded finding of C12
 	}
 	re := w.Client("retry")
